@@ -359,9 +359,9 @@ class TaggedCounter(Elaboratable, HwMetric):
         @def_methods(m, self.incr)
         def _(k: int, tag):
             if self.one_hot:
-                sorted_tags = sorted(list(self.counters.keys()))
                 for i in OneHotSwitchDynamic(m, Value.cast(tag)):
-                    m.d.comb += runs[sorted_tags[i]][k].eq(1)
+                    if (1 << i) in self.counters:
+                        m.d.comb += runs[1 << i][k].eq(1)
             else:
                 for tag_value in self.counters.keys():
                     with m.If(Value.cast(tag) == tag_value):
